@@ -15,6 +15,7 @@ import (
 	"runtime/debug"
 	"sort"
 	"strings"
+	"time"
 
 	"verifsim/rt"
 )
@@ -181,4 +182,34 @@ func readJSON(path string, v interface{}) error {
 func die2(format string, args ...interface{}) {
 	fmt.Fprintf(os.Stderr, "HARNESS-TROUBLE: "+format+"\n", args...)
 	os.Exit(2)
+}
+
+// collectGarbage runs a garbage collection and waits until the finalizer
+// goroutine has worked through its queue (a sentinel's finalizer is the
+// signal; the timeout only guards the harness).  It is called between tasks,
+// when no simulated task is running.  The worker processes switch the
+// automatic collector off (manualGC) and collect at run boundaries only: a
+// finalizer installed by the code under test then never runs in the middle of a
+// simulated task, where its calls into the simulated file system would not
+// belong to any task.
+func collectGarbage() {
+	for i := 0; i < 2; i++ {
+		done := make(chan struct{})
+		s := &struct{ p *int }{new(int)}
+		runtime.SetFinalizer(s, func(interface{}) { close(done) })
+		s = nil
+		runtime.GC()
+		select {
+		case <-done:
+		case <-time.After(300 * time.Millisecond):
+		}
+	}
+	runtime.GC()
+}
+
+// manualGC switches the automatic garbage collector off (a generous memory
+// limit stays as a safety net).
+func manualGC() {
+	debug.SetGCPercent(-1)
+	debug.SetMemoryLimit(3 << 30)
 }
